@@ -550,6 +550,19 @@ MUTANTS = [
     M("G4-1-offsuit-first", ["C17"], (HRS, "= [RankPair::Suited, RankPair::Ofsuit];", "= [RankPair::Ofsuit, RankPair::Suited];"), base="G4-1"),
     M("G4-1-suited-twice", ["C06", "C17"], (HRS, "= [RankPair::Suited, RankPair::Ofsuit];", "= [RankPair::Suited, RankPair::Suited];"), base="G4-1"),
     M("G4-1-run-weight-lt", ["C06", "C17"], (HRS, "                            || probability.unwrap_or(&0_f32) != start_probability\n                        {\n                            let prev_rank = kicker.prev().unwrap();", "                            || probability.unwrap_or(&0_f32) < start_probability\n                        {\n                            let prev_rank = kicker.prev().unwrap();"), base="G4-1"),
+    M("benign-I7-2-computed-masks", ["C13", "C09", "C08", "C02"], base="I7-2", benign=True),
+    M("I7-2-rank-shift-3", ["C13"], (CD, "ACE_MASK << (4 * u8::from(rank))", "ACE_MASK << (3 * u8::from(rank))"), base="I7-2"),
+    M("I7-2-suit-shift-off", ["C13"], (CD, "SPADE_MASK << u8::from(suit)", "SPADE_MASK << (u8::from(suit) ^ 1)"), base="I7-2"),
+    M("I7-2-suits-reordered", ["C13"], (CD, "const SUITS: [Suit; 4] = [Suit::Spade, Suit::Heart, Suit::Diamond, Suit::Club];", "const SUITS: [Suit; 4] = [Suit::Spade, Suit::Heart, Suit::Diamond, Suit::Diamond];"), base="I7-2"),
+    M("benign-I7-1-discriminant-tables", ["C13", "C09", "C05", "C06", "C12", "C17"], base="I7-1", benign=True),
+    M("I7-1-next-plus-two", ["C13"], (RK, "Self::ALL.get(*self as usize + 1).copied()", "Self::ALL.get(*self as usize + 2).copied()"), base="I7-1"),
+    M("benign-I5-3-default-empty", ["C05", "C10", "C12", "C06"], base="I5-3", benign=True),
+    M("benign-I8-3-representative-probe", ["C06", "C12", "C17"], base="I8-3", benign=True),
+    M("I8-3-representative-wrong-suit", ["C12"], (RP, "RankPair::Suited(high, kicker) => (high, kicker, Suit::Spade),", "RankPair::Suited(high, kicker) => (high, kicker, Suit::Heart),"), base="I8-3"),
+    M("I8-3-representative-swapped", ["C12"], (RP, "RankPair::Ofsuit(high, kicker) => (high, kicker, Suit::Heart),", "RankPair::Ofsuit(high, kicker) => (high, high, Suit::Heart),"), base="I8-3"),
+    M("benign-I7-4-direct-writes", ["C06", "C13", "C17"], base="I7-4", benign=True),
+    M("I7-4-suit-first", ["C13", "C06"], (CD, "        f.write_str(char::from(self.0).encode_utf8(&mut buffer))?;\n        f.write_str(char::from(self.1).encode_utf8(&mut buffer))", "        f.write_str(char::from(self.1).encode_utf8(&mut buffer))?;\n        f.write_str(char::from(self.0).encode_utf8(&mut buffer))"), base="I7-4"),
+    M("I7-4-rank-twice", ["C13", "C06"], (CD, "        f.write_str(char::from(self.1).encode_utf8(&mut buffer))\n", "        f.write_str(char::from(self.0).encode_utf8(&mut buffer))\n"), base="I7-4"),
     M("benign-F3-3-computed-flush-weight", ["C01", "C07", "C08"], base="F3-3", benign=True),
     M("F3-3-unreversed", ["C01", "C07"], (MH, "1 << (12 - u8::from(card.rank()))", "1 << u8::from(card.rank())"), base="F3-3"),
     M("F3-3-off-by-one", ["C01", "C07"], (MH, "1 << (12 - u8::from(card.rank()))", "1 << (13 - u8::from(card.rank()))"), base="F3-3"),
